@@ -281,6 +281,12 @@ impl Prop for C01 {
         if !compare_observed(cx, "as built", &built, c, 0) {
             return;
         }
+        // one case in four is preceded, on this thread, by a serialization that fails part-way (its outcome is ignored)
+        let prior_failure = case.layout_seed % 4 == 1;
+        if prior_failure {
+            super::prior::failing_bin_serialize(c, case.layout_seed);
+        }
+        cx.label_if(prior_failure, "after-a-failed-serialize-on-this-thread");
         let bytes = match cx.call(|| built.serialize()) {
             Some(Ok(b)) => b,
             Some(Err(e)) => {
@@ -310,7 +316,7 @@ impl Prop for C01 {
         }
         // (c) layout independence
         if !c.has_cstr() {
-            let alt = refbin::write_layout(c, case.layout_seed);
+            let alt = refbin::write_layout_mode(c, case.layout_seed, case.layout_seed % 4 == 2);
             let canonical = refbin::write_canonical(c, None);
             cx.label_if(alt != canonical, "layout-differs-from-canonical");
             match cx.call(|| BinArchive::from_bytes(&alt, c.endian())) {
